@@ -218,7 +218,7 @@ class ExprMixin:
         v = res[0][0]
 
         def known(x):
-            return x.is_const or (x.k == 'tuple' and all(known(y) for y in x.a[0]))
+            return x.is_const or x.k in ('modconst', 'cls', 'extfn') or (x.k == 'tuple' and all(known(y) for y in x.a[0]))
         if known(v):
             cache[key] = v
         return cache[key]
@@ -661,7 +661,11 @@ class ExprMixin:
             return [(V('row', base.a[0]), st)]
         if base.k == 'row' and idx.is_const and isinstance(idx.val, int):
             return [(self.col_of(base.a[0], idx.val, st, node), st)]
-        out = [(V('item', base, idx), st)]
+        if idx.is_const and isinstance(idx.val, int) and not isinstance(idx.val, bool) and idx.val >= 0 \
+                and base.k in ('ret', 'ucall', 'mcall'):
+            out = [(V('field', base, idx.val), st)]     # same value as the i-th target of `a, b = <call result>`
+        else:
+            out = [(V('item', base, idx), st)]
         # a lookup on an unknown container may raise: fork into enclosing KeyError/IndexError handlers
         if self.opts.hyp_handlers and isinstance(node.ctx, ast.Load):
             for t in ('KeyError', 'IndexError'):
